@@ -143,7 +143,7 @@ def typedefs_dump(program):
 
 
 def analyze(text, goals, subs=None, nmax=4, settings=None, force_cyclic=False, want_program=False,
-            want_shape=False):
+            want_shape=False, want_program_json=False):
     """parse -> normalize -> recurrences -> solve, and evaluate every goal at n = 0..nmax."""
     _reset_settings(settings)
     res = {"accepted": False, "goals": []}
@@ -171,6 +171,13 @@ def analyze(text, goals, subs=None, nmax=4, settings=None, force_cyclic=False, w
     res["abstracted"] = {str(k): str(v) for k, v in program.abstracted_const_store.items()}
     if want_program:
         res["normalized_text"] = str(program)
+    if want_program_json:
+        try:
+            from .convert import program_json
+            res["program_json"] = program_json(program)
+        except Exception as ex:  # noqa
+            res["program_json"] = None
+            res["program_json_why"] = f"{type(ex).__name__}: {ex}"[:200]
     from recurrences import RecBuilder
     from recurrences.solver import RecurrenceSolver
     from symengine.lib.symengine_wrapper import sympify
